@@ -16,6 +16,34 @@ CLAIMED = {
    text="TLC checks the split/join laws (floor, 0<=ns<1e9, recombination, monotone steps) on wide integers within R of 17 anchors (multiples of 1e9, i64 and i128 ends, range ends) and emits vectors for the three from_total_nanoseconds constructors; seeded i128 counts are trace-validated.",
    note="Trusted: Wide.tla (itself model-checked against TLC's native integers by MC_Wide), TLC, harness formatting.",
    tech="TLA+ spec (Wide/DateTime) + TLC model checking + vectors replayed + TLC trace validation"),
+ "C03": dict(cat="model_checking", ref="§C03",
+   text="TLC model-checks the scaled zone model (all zones with <= 2 (quick) / 3 (thorough) transitions on a 7-second grid, 5 type menus incl. equal offsets and no-op transitions, 6 leap tables, rule none/fixed; theorems: clock changes only at transitions, round trips, totality) and emits one lookup/localtime vector per (zone, instant) replayed into TimeZoneRef/TimeZone/DateTime::from_timespec; a table-length sweep (every parity of the binary search), i64-extreme transition times and seeded zones are recorded and validated by TLC against TypeAt ('latest transition <= instant').",
+   note="Trusted: TLC, the declarative TypeAt/ToLeap definitions, harness formatting. Beyond the scaled model and the sweep the zone space is sampled (seed in evidence).",
+   tech="TLA+ spec (Zone) + TLC model checking of the scaled zone model + vectors replayed + TLC trace validation"),
+ "C05": dict(cat="model_checking", ref="§C05",
+   text="Search results are judged against the preimage of the zone's clock (ValidInstants) computed by the TLA+ spec: soundness, completeness, no duplicates, each entry's fields/type/instant. Exhaustive on the scaled zone model (TLC also proves round trip and totality there), sampled on seeded zones with leap tables, full-range offsets, overlapping candidates and trailing rules; every event is validated by TLC.",
+   note="Outside MustSucceed (a candidate instant outside the supported range, year outside the rule guard) OutOfRange or the exact content are both admitted. Rules with start = end in every year are outside the judged domain.",
+   tech="TLA+ spec (Find) + TLC model checking + vectors replayed + TLC trace validation"),
+ "C06": dict(cat="model_checking", ref="§C06",
+   text="Gaps are specified per transition (structural definition), results must be a permutation-free match of ValidInstants + Gaps in non-decreasing order of instant, and unique/earliest/latest must be the functions of the returned list the statement describes; exhaustive on the scaled model, sampled beyond, all validated by TLC.",
+   note="As C05. Order among equal instants is unconstrained, as the statement leaves it.",
+   tech="TLA+ spec (Find) + TLC model checking + vectors replayed + TLC trace validation"),
+ "C12": dict(cat="model_checking", ref="§C12",
+   text="The two time scales are defined from the physical meaning of leap records; TLC checks monotonicity, round trip for non-deleted instants, inserted second sharing, and 'reported transition instant = switch point of the forward lookup' on the scaled model; lookups (forward conversion) and Skipped entries (inverse conversion) on probe zones with random valid tables (both signs, <= 40 records) and the real 27-record table are validated by TLC.",
+   note="A genuine defect (negative leap second at a transition's own count) was found and repaired: see known_findings.json 'fixed'.",
+   tech="TLA+ spec (Zone leap relations) + TLC model checking + vectors replayed + TLC trace validation"),
+ "C13": dict(cat="model_checking", ref="§C13",
+   text="ZoneVerdict (set of admissible outcomes) is model-checked for well-formedness on all small tuples (51 k), each emitted as a construction vector through both constructors; seeded valid zones with exactly one defect of each kind (incl. i64/i32 extremes) and local time types over all designation shapes are validated by TLC: accept/refuse, error kind, owned = borrowed, accessors echo the arguments.",
+   note="With several simultaneous defects any violated clause's error is admitted; with one defect exactly its error.",
+   tech="TLA+ spec (Zone validity) + TLC model checking + vectors replayed + TLC trace validation"),
+ "C14": dict(cat="model_checking", ref="§C14",
+   text="DtInv (fields = civil(unix + offset) with second 60 carried, week day, year day, total nanoseconds) is checked by TLC on the spec's own constructors for every walked day and is a global invariant of the trace spec: every date-time in every event of every check is tested. Dedicated events: all constructors, projection (instant and ns preserved, fields/type from the target zone), equality/order by (instant, ns) only, refusal of invalid fields and out-of-range instants.",
+   note="Whether from_timespec_and_local must refuse an instant outside the range whose local reading is representable is left open by the statement: both outcomes admitted.",
+   tech="TLA+ spec (DateTime) + TLC model checking + TLC trace validation (global invariant)"),
+ "C17": dict(cat="model_checking", ref="§C17",
+   text="The trace spec carries the client's buffer as a state variable across calls: after each find_n(n) the whole buffer must equal 'first min(n,k) results of the allocating search, other slots unchanged (stale entries kept)', count = k, exhaustive iff n >= k, same error, accessors equal when exhaustive. Driven on every (zone, local time) of the scaled model with buffer lengths 0..5 and on seeded zones.",
+   note="The allocating search's own result in the same event is the reference list (and is itself judged as in C05/C06).",
+   tech="TLA+ trace spec with buffer state + TLC trace validation + scaled-model vectors"),
 }
 
 NOT_YET = "check not built yet in this round (planned in DESIGN.md §3); not claimed until it exists and is green"
